@@ -73,8 +73,8 @@ Example C05_witness :
   = [[([(12,0);(13,0);(10,1)], true, [11])]].
 Proof. vm_compute. reflexivity. Qed.
 
-(* Schedules: a REQ, a timeout scan, a deferred scan or a put by the topic pump in progress
-   when Channel.exit closes the channel (F16 and its siblings).  For ANY number of them and ANY
+(* Schedules: a REQ, a TOUCH, a timeout scan, a deferred scan or a put by the topic pump in
+   progress when Channel.exit closes the channel (F16, F21 and their siblings).  For ANY number of them and ANY
    interleaving with the close - its statements as the CURRENT source has them - the message
    being moved is among what the close writes to disk. *)
 From NSQV Require model.Handoff proofs.HandoffProofs proofs.HandoffSrc proofs.HandoffCompose.
@@ -87,6 +87,7 @@ Print Assumptions C05_moves_vs_close_every_schedule.
 
 Theorem C05_movers_follow_the_protocol :
   HandoffSrc.channel_mover CoreShape.shape_Channel_RequeueMessage = true /\
+  HandoffSrc.channel_mover CoreShape.shape_Channel_TouchMessage = true /\
   HandoffSrc.channel_mover CoreShape.shape_Channel_processInFlightQueue = true /\
   HandoffSrc.channel_mover CoreShape.shape_Channel_processDeferredQueue = true /\
   HandoffSrc.channel_mover CoreShape.shape_Channel_PutMessage = true.
